@@ -285,11 +285,22 @@ class Cyclic(Exception):
     pass
 
 
+def action_chain(action):
+    """`user.Action` wrapped in `user.Preset`s, outermost first, by class (e.g. ['setstate', 'apply'])."""
+    chain = []
+    for _ in range(16):
+        chain.append(type(action).__name__.lower())
+        action = getattr(action, '_action', None)
+        if action is None:
+            return chain
+    return chain + ['...']
+
+
 def describe(instr, ex_gid_index):
     from forml import flow
 
     if isinstance(instr, flow.Functor):
-        return ['functor', instr.builder.kwargs['tag']] + repr(instr.action).split('.')
+        return ['functor', instr.builder.kwargs['tag']] + action_chain(instr.action)
     if isinstance(instr, flow.Getter):
         return ['getter', instr.index]
     if isinstance(instr, flow.Loader):
@@ -359,6 +370,21 @@ def tree_hashes(table):
     for k in by:
         h(k)
     return memo
+
+
+def rooted(table, hashes):
+    """The instruction trees the property talks about: one per task (functor) and the committer's, as a sorted list.
+    They hold every instruction that takes part in the dataflow (getters per output port, loaders, dumpers, argument
+    positions); symbols nobody refers to (e.g. an un-pruned stub getter) are not part of them."""
+    return sorted(hashes[k] for k, d, _ in table if d[0] in ('functor', 'committer'))
+
+
+def canon_table(table, hashes):
+    """Readable canonical form: symbols in the order of their tree hashes, arguments as positions in that order
+    (uuids / model keys -> canonical indices)."""
+    order = sorted(range(len(table)), key=lambda i: (hashes[table[i][0]], i))
+    pos = {table[i][0]: n for n, i in enumerate(order)}
+    return [[n, table[i][1], [pos.get(a, '?') for a in table[i][2]]] for n, i in enumerate(order)]
 
 
 # --------------------------------------------------------------------------------------------------
@@ -928,6 +954,15 @@ class C01(fw.Check):
             self.diverge('Traversal.each visited set', witness, sorted(ex['order']), sorted(mdfs[1]))
         elif mdfs[1] != ex['order']:
             self._mech('visit order differs (same set)')
+        if len(mdfs) >= 5:
+            if mdfs[2] != ['ok', mdfs[1]]:
+                # theorem C01_traversal_never_cyclic: the traversal with the Cyclic test is the plain search
+                self.diverge('model: Traversal.each with the Cyclic test differs from the plain search', witness, None, mdfs[2])
+            if stream == 'valid' and impl.get('rank') is not None and mdfs[3:5] != ['true', 'true']:
+                self.diverge('exported members are not the reachable set by the Lean predicates (connected closed)', witness,
+                             ex['reach'], mdfs[3:5])
+        elif stream == 'valid':
+            raise fw.MachineryError('model driver does not report the traversal flags')
         if stream == 'valid' and sorted(ex['order']) != ex['reach']:
             self.violate(f'segment traversal visits {sorted(ex["order"])} but the members reachable from the head are '
                          f'{ex["reach"]}', witness, 'segment-members')
@@ -970,9 +1005,21 @@ class C01(fw.Check):
             return
         isyms = sorted(ih[k] for k, _, _ in itab)
         msyms = sorted(mh[k] for k, _, _ in mtab)
-        if isyms != msyms:
-            # mechanism level only (e.g. an un-pruned stub getter): not what the property talks about, recorded as data
-            self._mech('symbol table structure differs')
+        if rooted(itab, ih) != rooted(mtab, mh):
+            # the compiled table itself, where the property talks about it: kind/actor/action+preset chain of every
+            # task, its arguments by position (state first, then one per input port: the publisher's functor or the
+            # getter of the subscribed output port), loader keys, dumper -> committer positions
+            ci, cm = canon_table(itab, ih), canon_table(mtab, mh)
+            only_i = [x for x in ci if x[1:] not in [y[1:] for y in cm]][:3]
+            only_m = [x for x in cm if x[1:] not in [y[1:] for y in ci]][:3]
+            if stream == 'valid' and impl['rank'] is not None:
+                self.diverge('compiled symbol table: instruction trees of the tasks / the committer', witness,
+                             only_i or ci[:6], only_m or cm[:6])
+            else:
+                self._mech('symbol table differs on a malformed segment')
+        elif isyms != msyms:
+            # symbols nobody refers to (e.g. an un-pruned stub getter): not what the property talks about
+            self._mech('symbol table differs in unreferenced symbols only')
         # ---- run ------------------------------------------------------------------------------
         mvals = {repr(k): v for k, v in mrun[1]} if mrun not in ('skip', 'cyclic') else {}
         model_raised = mrun == 'cyclic' or any(has_error(v) for v in mvals.values())
@@ -1231,7 +1278,7 @@ class C01(fw.Check):
         return got[0] if got else None
 
 
-_FAKE_ALL = '(all (ok ()) skip (ok () none) (ok ()) (ok true true) (true true) (reruns))'
+_FAKE_ALL = '(all (ok ()) skip (ok () none) (ok () (ok ()) true true) (ok true true) (true true) (reruns))'
 
 
 def _smaller(spec):
